@@ -122,6 +122,10 @@ def plan_C06(ck):
         ck.model(name + "-" + sz + "nodes", "Orders.tla", "MCOrders_%s.cfg" % c, note=note, workers=16, timeout=3000)
     ck.traces(cf.state_cases(ck.seed + 6, 150 if q else 4000, 5 if q else 8, "C06"), ["C06"], tag="c06",
               nontrivial=cf.nontrivial_world)
+    if q and ck.violations:
+        return
+    # graph snapshots are flow graphs too: the tables they expose are checked like any other state
+    ck.traces(cf.snapshot_cases(ck.seed + 160, 40 if q else 800, 5, "C06snap"), ["C06"], tag="c06snap", nontrivial=cf.nontrivial_world)
 
 
 def plan_C19(ck):
